@@ -215,12 +215,65 @@ def run(ctx):
             nm = "nested-get_type#%d" % member_sinks.index(s)
             _check_gate(ctx, "R04.2", fd, s, nm, "vis", vis_min, [G.pred_true("in_forcetype")], " (or in_forcetype)")
 
+    _access_labels(ctx)
     # ------------------------------------------------------------ R04.3
     _siblings(ctx)
     # ------------------------------------------------------------ R04.4
     _writers(ctx)
     # ------------------------------------------------------------ R04.5
     _commands(ctx)
+
+
+def _access_labels(ctx):
+    """R04.6: the visibility the parser stamps comes from the access labels.  Table agreement between
+    the label tokens and the enumerator they install, and save/restore pairing of a publish region."""
+    import re
+    from .. import grammar as GR
+    db = ctx.db
+    ctx.rule("R04.6", "each access label installs its own visibility on the current scope; __begin_publish saves the current scope's visibility and __end_publish restores it to the same scope")
+    g = GR.Grammar(db.meta["grammar"])
+    want = {"KW_PUBLISHED": {"V_published"}, "KW_PUBLIC": {"V_public", "V_published"}, "KW_PROTECTED": {"V_protected"}, "KW_PRIVATE": {"V_private"}}
+    seen = 0
+    for nt, alts in g.rules.items():
+        for a in alts:
+            syms = [x for x in a.syms if x != "@action"]
+            if len(syms) == 2 and syms[0] in want and syms[1] == "':'":
+                seen += 1
+                calls = re.findall(r"(\w+)\s*->\s*set_current_vis\(\s*(\w+)\s*\)", a.action or "")
+                objs = {c[0] for c in calls}
+                vals = {c[1] for c in calls}
+                ok = bool(calls) and objs == {"current_scope"} and vals <= want[syms[0]] and (syms[0][3:].lower() in {v[2:] for v in vals})
+                ctx.ob("R04.6", "label|%s" % syms[0], ok, "src/cppparser/cppBison.yxx:%d" % a.line,
+                       "`%s :` installs %s on %s" % (syms[0][3:].lower(), sorted(vals), sorted(objs)))
+    ctx.floor("R04.6", "access-label alternatives", seen, 4)
+    yy = db.fn("cppyyparse")
+    saves, restores, sets = [], [], []
+    for n in yy.walk():
+        t = assigned_target(n)
+        if t:
+            l = peel(t[0])
+            if l is not None and l.get("k") == "ref" and l.get("n") == "publish_previous":
+                saves.append((n, t[1]))
+        if n.get("k") == "call" and callee_short(n) == "set_current_vis" and "this" in n:
+            obj = peel(n["this"])
+            arg = strip_casts(n["a"][0]) if n.get("a") else None
+            sets.append((n, obj, arg))
+            if arg is not None and arg.get("k") == "ref" and arg.get("n") == "publish_previous":
+                restores.append((n, obj))
+    ctx.floor("R04.6", "set_current_vis calls in the grammar actions", len(sets), 8)
+    for n, rhs in saves:
+        r = peel(rhs)
+        obj = peel(r.get("this")) if (r is not None and r.get("k") == "call" and callee_short(r) == "get_current_vis" and "this" in r) else None
+        ok = obj is not None and obj.get("k") == "ref" and obj.get("n") == "current_scope"
+        ctx.ob("R04.6", "begin_publish|saves-current-scope", ok, yy.loc(n), "publish_previous is taken from %s (must be the scope whose visibility is about to change)" % (show(obj) if obj else show(rhs)))
+    for n, obj in restores:
+        ok = obj is not None and obj.get("k") == "ref" and obj.get("n") == "current_scope"
+        ctx.ob("R04.6", "end_publish|restores-current-scope", ok, yy.loc(n), "publish_previous is restored into %s" % show(obj))
+    ctx.ob("R04.6", "publish|save-and-restore-present", len(saves) == 1 and len(restores) == 1, yy.loc(), "%d save(s), %d restore(s) of publish_previous" % (len(saves), len(restores)))
+    for n, obj, arg in sets:
+        ok = obj is not None and obj.get("k") == "ref" and obj.get("n") == "current_scope"
+        if not ok:
+            ctx.ob("R04.6", "set_current_vis|on-current-scope|%s" % show(n).replace(" ", ""), False, yy.loc(n), "visibility installed on %s, not on the current scope" % show(obj))
 
 
 def switch_arms(sw):
